@@ -93,7 +93,11 @@ CLASS_TVS = [tvd(0), tvd(1), tvd(2)]
 CLASS_TVS_SPECIAL = [tvd(3, bound='int'), tvd(4, constraints=['int', 'str']), tvd(5, bound=['user', [0]])]
 CALL_TVS = [tvd(10), tvd(11), tvd(10), tvd(11), tvd(12, constraints=['int', 'str']), tvd(13, constraints=['str', 'bytes']),
             tvd(14, bound='int'), tvd(15, bound=['user', [0]]), tvd(16, contra=True),
-            tvd(17, constraints=[['user', [0]], ['user', [1]]]), tvd(18, bound='object')]
+            tvd(17, constraints=[['user', [0]], ['user', [1]]]), tvd(18, bound='object'),
+            # the TypeVars typing itself exports (w_typevars.STD_TVS renders these ids as typing.AnyStr / typing.T / typing.KT /
+            # typing.T_contra - the objects of the typing module, not look-alikes): AnyStr is the constrained one everybody uses
+            tvd(20, constraints=['bytes', 'str']), tvd(20, constraints=['bytes', 'str']), tvd(21), tvd(22), tvd(23, contra=True)]
+DFLT = ['dflt']       # an argument of a step: the parameter is left out of the call and takes the default of the signature
 BIND_CLS = ['int', 'str', 'bool', 'float', 'bytes', 'NoneType', ['user', [0]], ['user', [0, 1]], ['user', [1]], ['user', [0, 1, 0]],
             'int', 'str', 'list', 'object']
 
@@ -180,9 +184,10 @@ def pick_cls(rng, t):
     return rng.choice(BIND_CLS)
 
 
-def gen_args(rng, positions, xenv, mode):
-    """one value per position.  xenv: TypeVar id -> annotation X (class-level TypeVars of a generic instance)"""
-    chosen = {}
+def gen_args(rng, positions, xenv, mode, pre=None):
+    """one value per position.  xenv: TypeVar id -> annotation X (class-level TypeVars of a generic instance);
+    pre: TypeVar id -> class already decided (the classes the defaults of the signature were generated for)"""
+    chosen = dict(pre or {})
 
     def env_same(t):
         if t['id'] in xenv:
@@ -247,11 +252,43 @@ def renderable(v):
     return True
 
 
-def gen_sig(rng, tvs, nmax=3, ret_none=0.4, variadic=False):
+def gen_defaults(rng, sg):
+    """DEFAULT values for a suffix of the parameters, generated from the annotations for one choice of classes (sg['dcls']); a
+    call leaves such a parameter out (argument DFLT) and Python binds the default - one object for all calls -, which takes
+    part in the call like any other value: it is matched against the TypeVars of its annotation"""
+    n = len(sg['params'])
+    first = rng.randrange(n)
+    chosen = {}
+
+    def env(t):
+        if t['id'] not in chosen:
+            chosen[t['id']] = ['cls', pick_cls(rng, t)]
+        return chosen[t['id']]
+    dl = [None] * n
+    for j in range(first, n):
+        v = G.gen_conf(rng, subst(sg['params'][j], env), size=2)
+        if v is None or v[0] == 'iter' or not renderable(v):
+            return
+        dl[j] = deiter(v)
+    sg['defaults'], sg['dcls'] = dl, {str(k): v for k, v in chosen.items()}
+
+
+def gen_sig(rng, tvs, nmax=3, ret_none=0.4, variadic=False, defaults=False):
     n = rng.choice([1, 2, 2, 3][:nmax + 1])
     params = [gen_pos(rng, tvs) for _ in range(n)]
     ret = ['none'] if rng.random() < ret_none else gen_pos(rng, tvs)
     sg = {'params': params, 'ret': ret}
+    if defaults and tvs and rng.random() < 0.3:
+        if rng.random() < 0.6:
+            # the shape the dimension is about: a T-annotated parameter with a default next to another occurrence of T
+            t = T(rng.choice(tvs))
+            sg['params'][-1] = t
+            if rng.random() < 0.6 or n == 1:
+                sg['ret'] = t
+            elif not any(has_tv(a) for a in sg['params'][:-1]):
+                sg['params'][0] = gen_pos(rng, [t[1]]) if rng.random() < 0.4 else t
+        gen_defaults(rng, sg)
+        return sg
     if variadic and rng.random() < 0.22:
         # *args: T / **kwargs: T (sometimes List[T] or a TypeVar-free annotation), possibly as the only parameters
         def va():
@@ -277,9 +314,16 @@ def gen_call_v(rng, sg, xenv):
     nva = rng.choice([0, 1, 2, 2, 3]) if sg.get('varargs') is not None else 0
     nkw = rng.choice([0, 1, 1, 2]) if sg.get('varkw') is not None else 0
     pos = sg['params'] + [sg.get('varargs')] * nva + [sg.get('varkw')] * nkw + [sg['ret']]
-    vals = gen_args(rng, pos, xenv, rng.choice(MODES))
+    pre = None
+    if sg.get('defaults') and rng.random() < 0.5:
+        pre = {int(k): v for k, v in sg['dcls'].items()}      # the classes the defaults belong to: a call they are consistent with
+    vals = gen_args(rng, pos, xenv, rng.choice(MODES), pre)
     n = len(sg['params'])
-    return vals[:n], vals[-1], vals[n:n + nva], vals[n + nva:n + nva + nkw]
+    args = vals[:n]
+    for j, d in enumerate(sg.get('defaults') or []):
+        if d is not None and rng.random() < 0.6:
+            args[j] = DFLT
+    return args, vals[-1], vals[n:n + nva], vals[n + nva:n + nva + nkw]
 
 
 MODES = ['same', 'same', 'same', 'mixed', 'mixed', 'near', 'random']
@@ -306,8 +350,8 @@ def gen_typevars_case(rng):
     """stream `typevars`: one plain function (or a method of an undecorated class), a few calls"""
     tvs = rng.sample(CALL_TVS, rng.choice([1, 1, 2]))
     tvs = list({t['id']: t for t in tvs}.values())
-    sg = gen_sig(rng, tvs, variadic=True)
-    if rng.random() < 0.8 and sg['params'] and not any(has_tv(a) for a in positions_of(sg)):
+    sg = gen_sig(rng, tvs, variadic=True, defaults=True)
+    if rng.random() < 0.8 and sg['params'] and not sg.get('defaults') and not any(has_tv(a) for a in positions_of(sg)):
         sg['params'][0] = T(tvs[0])
     as_method = rng.random() < 0.25
     world = {'classes': [{'kind': 'plain', 'tparams': [], 'init': None, 'methods': [sg]}] if as_method else [],
@@ -380,7 +424,7 @@ def gen_history_case(rng, max_steps):
         for _m in range(rng.choice([2, 3, 4])):
             r = rng.random()
             pool = tps if r < 0.55 else (tps + call_tvs if r < 0.8 else call_tvs)
-            methods.append(gen_sig(rng, pool, variadic=True))
+            methods.append(gen_sig(rng, pool, variadic=True, defaults=True))
         init = None
         if rng.random() < 0.5:
             init = gen_sig(rng, rng.choice([tps, tps + call_tvs, []]), nmax=2, ret_none=1.0)
@@ -389,11 +433,11 @@ def gen_history_case(rng, max_steps):
         classes.append({'kind': 'gensub' if (init is None and rng.random() < 0.2) else 'generic', 'tparams': tps, 'init': init, 'methods': methods})
     if rng.random() < 0.55:
         classes.append({'kind': 'pedantic', 'tparams': [], 'init': None,
-                        'methods': [gen_sig(rng, call_tvs, variadic=True) for _ in range(rng.choice([1, 2]))]})
+                        'methods': [gen_sig(rng, call_tvs, variadic=True, defaults=True) for _ in range(rng.choice([1, 2]))]})
     if rng.random() < 0.4:
         classes.append({'kind': 'plain', 'tparams': [], 'init': None,
                         'methods': [gen_sig(rng, call_tvs, variadic=True) for _ in range(rng.choice([1, 2]))]})
-    funs = [gen_sig(rng, call_tvs, variadic=True) for _ in range(rng.choice([0, 1, 1, 2]))]
+    funs = [gen_sig(rng, call_tvs, variadic=True, defaults=True) for _ in range(rng.choice([0, 1, 1, 2]))]
     world = {'classes': classes, 'funs': funs}
     steps, insts = [], {}      # slot -> (class index, xenv)
 
@@ -474,6 +518,17 @@ def judge_step(I, M, S, mm):
     if mm and I in (1, 3):
         return f'values of unrelated classes matched against one TypeVar were rejected with {OUT.get(I, I)}, not PedanticTypeVarMismatchException'
     return None
+
+
+def dflt_note(steps):
+    """the part of a history the reified steps do not show: which parameters were left out (their default took part)"""
+    out = []
+    for i, s in enumerate(steps):
+        args = s[2] if s[0] == 'fun' else s[3] if s[0] == 'call' else []
+        left = [f'p{j}' for j, a in enumerate(args) if a == DFLT]
+        if left:
+            out.append(f'step {i}: {", ".join(left)}')
+    return (' [parameters left out of the call, bound to their DEFAULT (shown in the reified step): ' + '; '.join(out) + ']') if out else ''
 
 
 def step_slot(s):
@@ -583,6 +638,10 @@ def run(tier, seed, replay=None):
                 disagreements.append({'what': 'worker error', 'impl': r, 'case': c})
             continue
         bump('stream', c['stream'])
+        hist['steps_leaving_out_a_defaulted_parameter'] = hist.get('steps_leaving_out_a_defaulted_parameter', 0) + sum(
+            1 for s in c['steps'] if DFLT in (s[2] if s[0] == 'fun' else s[3] if s[0] == 'call' else []))
+        hist['cases_with_a_typevar_exported_by_typing'] = hist.get('cases_with_a_typevar_exported_by_typing', 0) + bool(
+            any(20 <= i <= 23 for sg in r['world']['funs'] + [m for cd in r['world']['classes'] for m in cd['methods']] for i in sig_tvs(sg)))
         bump('history_length', str(10 * (len(r['steps']) // 10)) + '+')
         seen_slots = {}
         res_of[id(c)] = (r, m)
@@ -661,7 +720,7 @@ def run(tier, seed, replay=None):
         kk = len(r['steps']) - 1
         case = dict(cc, reified={'world': r['world'], 'steps': r['steps']}, facts=describe(cc, r, kk), impl_out=I2,
                     impl_agrees_with_model=(I2 == M2), spec=VERD.get(S2, S2))
-        ck.violation(w2, case, stream=cc['stream'], matcher=matcher,
+        ck.violation(w2 + dflt_note(cc['steps']), case, stream=cc['stream'], matcher=matcher,
                      extra={'impl': {'out': OUT.get(I2, I2), 'exc': r['exc'][kk], 'tables': r.get('tables')}, 'model_out': OUT.get(M2, M2),
                             'spec': VERD.get(S2, S2), 'failing_step': kk, 'original_history_length': len(c['steps'])})
     ck.violations.sort(key=lambda v: (len(v['case'].get('reified', v['case'])['steps']), len(json.dumps(v['case']['steps']))))
@@ -683,7 +742,7 @@ def run(tier, seed, replay=None):
                       'user classes form a single-inheritance tree; class identity = class name',
                       'the Self entry of the binding table is not modelled (no typing.Self in the vocabulary)']
     return ck.finish(
-        rule='reentrancy: a generated plain function whose body calls the same decorated function again (depth 1-2, other classes), each call judged alone; typevars: generated signature over bare / nested / constrained / bound / contravariant TypeVars x 2-4 keyword calls '
+        rule='TypeVars: user-defined ones and the ones typing exports (typing.AnyStr, T, KT, T_contra); parameters with DEFAULT values left out of calls (the default takes part in the call); reentrancy: a generated plain function whose body calls the same decorated function again (depth 1-2, other classes), each call judged alone; typevars: generated signature over bare / nested / constrained / bound / contravariant TypeVars x 2-4 keyword calls '
              '(same class, mixed classes, near miss, random values); generic-history: random histories of creations and calls over 1-3 '
              'instances of generic classes with 1-3 TypeVars, a non-generic @pedantic_class, a plain class and plain functions; '
              'distinct = (world, history prefix); non-trivial = verdict Must/MustNot and (a TypeVar shared by two positions, or a call on a '
